@@ -12,6 +12,12 @@ SHAPES = {
     "diamond": [[], [1], [1], [2, 3]],
     "chain4": [[], [1], [2], [3]],
 }
+# shapes used by the mixed DBC / plain family only (kept out of SHAPES so that the other families stay as they were)
+MIXED_SHAPES = {
+    "mixed4": ([[], [1], [], [2, 3]], [False, False, True, True]),      # plain grand-parent, plain parent, DBC parent
+    "mixed3": ([[], [], [1, 2]], [False, True, True]),
+    "mixed3b": ([[], [], [2, 1]], [False, True, True]),
+}
 
 # per-class options for member "f": None = not defined here; else (npre, npost, nsnap)
 MEMBER_OPTS = [None, (0, 0, 0), (1, 0, 0), (2, 0, 0), (0, 1, 0), (1, 1, 0), (0, 1, 1), (1, 1, 1)]
@@ -205,6 +211,44 @@ def fam_async_members(tier: str, rng: random.Random) -> Iterator[dict]:
         q["async_members"] = True
         q["tag"] = q["tag"] + "-async"
         yield q
+
+
+def fam_precalled(tier: str, rng: random.Random) -> Iterator[dict]:
+    """Every contracted function is called once as a plain function before the class statement adopts it as a
+    method: what the metaclass merges into its lists afterwards must still be what the calls obey."""
+    import copy
+    pool = list(fam_hier_small(tier, rng))
+    if tier == "quick":
+        pool = rng.sample(pool, min(len(pool), 400))
+    for h in pool:
+        q = copy.deepcopy(h)
+        for c in q["cls"]:
+            for m in c["members"]:
+                if m["decos"]:
+                    m["precall"] = True
+        q["tag"] = q["tag"] + "-precalled"
+        yield q
+
+
+def fam_mixed_dbc(tier: str, rng: random.Random) -> Iterator[dict]:
+    """A class created through the metaclass whose bases are partly plain classes (decorated with invariants, or
+    merely inheriting them from a decorated plain grand-parent): it must satisfy the invariants of ALL its ancestors."""
+    for shape, (bases_list, dbcs) in MIXED_SHAPES.items():
+        n = len(bases_list)
+        SHAPES[shape] = bases_list
+        try:
+            for iopts in itertools.product([[], ["CALL"], ["SETATTR"]], repeat=n):
+                if not dbcs[0] and bases_list[1] == [1] and iopts[1]:
+                    continue    # decorating a plain subclass appends to the base's list (pinned behaviour, undefined)
+                for mpos in range(1, n + 1):
+                    mopts = [None] * n
+                    mopts[mpos - 1] = (0, 0, 0)
+                    h = make_hist(shape, mopts, list(iopts), kind="fn", tag="mixed-" + shape)
+                    for c, d in zip(h["cls"], dbcs):
+                        c["dbc"] = d
+                    yield h
+        finally:
+            del SHAPES[shape]
 
 
 def fam_foreign_hier(tier: str, rng: random.Random) -> Iterator[dict]:
